@@ -261,6 +261,7 @@ class Executor(Exec):
             self.binder_marks.pop()
             self.close_binder(st, mark, [j], rng)
             st.env = saved_env
+            self.flush_pending(st)
         self.lib_used.add("sum() over a range / filtered sequence = rsum(lambda, lo, hi): finite sum with unfolding / "
                           "extensionality / non-negativity axioms (T-rangesum, trusted)")
         return VInt(lib_models.rsum(z3.Lambda([j], v), lo, hi))   # empty when hi <= lo (axiom)
@@ -306,6 +307,7 @@ class Executor(Exec):
         finally:
             del st.pc[mark:]
             st.env = saved_env
+            self.flush_pending(st)
         # re-express over the loop variable itself for ranges (nicer triggers)
         if kind == "all":
             return VBool(z3.ForAll([j], z3.Implies(z3.And(*conds), body)))
@@ -551,6 +553,7 @@ class Executor(Exec):
                     raise Unsupported(f"call of {c.key}: closure variable {gname} not in scope")
         for lname, ltext in c.let:
             env[lname] = self.spec_eval(st, ltext, env, f"{c.key}.let.{lname}")
+        self.apply_hints(st, "before_call:" + c.key, None)
         # 1. preconditions
         for name, text in c.requires:
             g = self.spec_truth(st, text, env, f"{c.key}.requires.{name}")
@@ -610,7 +613,41 @@ class Executor(Exec):
         finally:
             self.result = saved_result
             self.old_stack.pop()
+        self.apply_hints(st, "after_call:" + c.key, res)
         return res
+
+    def flush_pending(self, st):
+        """definitions of named arrays that were introduced inside a binder for terms without bound variables: they
+        are facts of the enclosing context (added once the outermost binder is left)"""
+        pend = getattr(self, "pending_named", None)
+        if pend and not self.binder_marks:
+            for f in pend:
+                if not any(z3.eq(f, p_) for p_ in st.pc):
+                    st.pc.append(f)
+            pend.clear()
+
+    def apply_hints(self, st, where, ret):
+        """sidecar ghost assertions of the function under verification: proved here, then assumed"""
+        hints = self.contract.hints.get(where, ()) if self.contract is not None and not self.spec else ()
+        if not hints or self.dry or self.binder_marks:
+            return
+        env = dict(getattr(self, "env0", {}))
+        env.update(st.env)
+        if where.startswith("after_call:"):
+            env.update(getattr(self, "hint_lets", {}))       # ghost names introduced by the before_call hints
+        else:
+            self.hint_lets = {}
+        if ret is not None:
+            env["_ret"] = ret
+        for name, text in hints:
+            if name.startswith("let:"):
+                # a ghost name for a value (evaluated outside any binder: a list expression gets a NAMED array)
+                env[name[4:]] = self.spec_eval(st, text, env, f"{self.contract.key}.hint.{name}")
+                self.hint_lets[name[4:]] = env[name[4:]]
+                continue
+            g = self.spec_truth(st, text, env, f"{self.contract.key}.hint.{name}")
+            self.oblige(st, f"L{self.cur_line}.hint.{name}", g, "hint")
+            st.pc.append(g)
 
     def havoc_path(self, st, path, env):
         if path == "fs":
